@@ -9,16 +9,15 @@
     table-only zones (C05_classification_table, C05_roundtrip_table), TZ strings / rule-only zones
     (C05_rule_zone_classification), COMPOSITE zones = table + footer rule
     (C05_composite_classification, C05_roundtrip_composite), and the value level of
-    Local.from_local_datetime (the C05_from_local_values theorems).  Still open: the rule round trip ON the
-    excepted boundary seconds (the property excepts them); composite zones whose last table
-    transition, read on the clocks involved, straddles a calendar-year boundary (clause (1) of
-    [footer_continues]; it holds whenever the last table transition is one of the rule's transitions
-    under the property's premise and the offset before it is one of the rule's two offsets). *)
+    Local.from_local_datetime (the C05_from_local_values theorems).  Composite zones whose last table
+    transition, read on the clocks involved, straddles a calendar-year boundary (excluded by clause (1)
+    of [footer_continues]) are covered by the _wide theorems (Proofs/C05Wide.v), which supersede the
+    one-year forms. *)
 From Coq Require Import ZArith List Bool.
 From V Require Import Base.Int Base.IO.
 From V Require Import Spec.Zone Proofs.TzCommon.
 From V Require Spec.Gregorian.
-From V Require Import Model.TzParser Model.TzRule Model.TzLookup Model.C05 Proofs.C05 Proofs.C05Composite Proofs.C05Glue Proofs.C05Judge.
+From V Require Import Model.TzParser Model.TzRule Model.TzLookup Model.C05 Proofs.C05 Proofs.C05Composite Proofs.C05Glue Proofs.C05Judge Proofs.C05Wide.
 From V Require Model.Date Model.DateTime.
 Import ListNotations.
 Open Scope Z_scope.
@@ -443,6 +442,96 @@ Theorem C05_judge_spacing_example :
   utc_year 1698541200 = utc_year (1698541200 + 3600).
 Proof. exact exc_judge. Qed.
 Print Assumptions C05_judge_spacing_example.
+
+(** ** Composite zones WITHOUT clause (1): the last table transition may straddle a year boundary
+    (Proofs/C05Wide.v).  [footer_continues_wide cz] (decidable): the offset after the last table
+    transition tl is the rule's offset there, and every rule transition T of the calendar years
+    k1 = [footer_year_lo cz] <= k2 = [footer_year_hi cz] (the years met by the wall-clock interval
+    [tl + min(std, dst), tl + max(std, dst, offset before tl)]; at most two consecutive years) has its
+    window after the last table window when T > tl and at or before its end when T <= tl.  Nothing is
+    asked about the position of tl in its year.  With k1 = k2 this is [footer_continues]
+    (C05_footer_continues_wide_of), so C05_composite_instants / C05_composite_classification /
+    C05_roundtrip_composite are the one-year instances of the three theorems below. *)
+Theorem C05_footer_continues_wide_of : forall z, footer_continues z = true ->
+  footer_continues_wide z = true /\ footer_year_lo z = footer_year z /\ footer_year_hi z = footer_year z.
+Proof. exact footer_continues_wide_of. Qed.
+Print Assumptions C05_footer_continues_wide_of.
+
+Theorem C05_composite_instants_wide : forall first tr r tl pv ol l,
+  let cz := mk_szone first tr (Some (inr r)) in
+  increasing tr = true -> ordered (windows tr first) = true ->
+  last_window tr first = Some (tl, pv, ol) ->
+  footer_continues_wide cz = true ->
+  rule_year_hyps r (footer_year_lo cz) -> rule_year_hyps r (footer_year_hi cz) ->
+  (l <= tl + Z.max pv ol ->
+   forall t, In t (instants_of_wall cz l) <-> In t (instants_of_wall (mk_szone first tr None) l)) /\
+  (tl + Z.max pv ol < l ->
+   forall t, In t (instants_of_wall cz l) <-> In t (instants_of_wall (mk_szone first [] (Some (inr r))) l)).
+Proof. exact composite_instants_wide. Qed.
+Print Assumptions C05_composite_instants_wide.
+
+(* unique / twice / skipped and order for EVERY wall reading off the excepted seconds, with no
+   condition on where the last table transition lies in its year *)
+Theorem C05_composite_classification_wide : forall z ps first a l,
+  let k := utc_year l in let r := conv_rule a in
+  let cz := mk_szone (ut_offset first) (offs ps) (Some (inr r)) in
+  table_zone z ps first -> extra_rule z = Some (Alternate a) -> alt_ok a -> r_std r <> r_dst r ->
+  increasing (offs ps) = true -> spacing_table (offs ps) (ut_offset first) = true ->
+  footer_continues_wide cz = true ->
+  rule_year_hyps r (footer_year_lo cz) -> rule_year_hyps r (footer_year_hi cz) ->
+  (footer_hi cz < l -> rule_reading_hyps a l) ->
+  excepted_wall cz l = false ->
+  exists m, find_local_time_type_from_local z k l = Val (Ok m) /\ classified cz l m.
+Proof. exact composite_classification_wide. Qed.
+Print Assumptions C05_composite_classification_wide.
+
+Theorem C05_roundtrip_composite_wide : forall z ps first a t o,
+  let r := conv_rule a in
+  let cz := mk_szone (ut_offset first) (offs ps) (Some (inr r)) in
+  let l := t + o in
+  table_zone z ps first -> extra_rule z = Some (Alternate a) -> alt_ok a -> r_std r <> r_dst r ->
+  increasing (offs ps) = true -> spacing_table (offs ps) (ut_offset first) = true ->
+  footer_continues_wide cz = true ->
+  rule_year_hyps r (footer_year_lo cz) -> rule_year_hyps r (footer_year_hi cz) ->
+  (footer_hi cz < l -> rule_reading_hyps a l) ->
+  zone_off cz t = Some o -> excepted_wall cz l = false ->
+  exists m, find_local_time_type_from_local z (utc_year l) l = Val (Ok m) /\ contains m o.
+Proof. exact roundtrip_composite_wide. Qed.
+Print Assumptions C05_roundtrip_composite_wide.
+
+(* against the JUDGE's domain: a zone the judge calls well spaced ([J.spacing_rule_table]) whose offset
+   after the last table transition is the rule's, with the offset before it below a day (the judge
+   skips wall readings of zones with larger offsets), satisfies the wide condition; the year-position
+   hypotheses of C05_judge_spacing_footer_continues are gone *)
+Theorem C05_judge_spacing_footer_wide : forall first tr r tl pv ol,
+  let cz := mk_szone first tr (Some (inr r)) in
+  increasing tr = true -> last_window tr first = Some (tl, pv, ol) ->
+  J.spacing_rule_table cz r = true ->
+  roff r tl = ol -> -86400 < pv < 86400 ->
+  rule_year_hyps r (footer_year_lo cz) -> rule_year_hyps r (footer_year_hi cz) ->
+  footer_continues_wide cz = true.
+Proof. exact judge_spacing_footer_wide. Qed.
+Print Assumptions C05_judge_spacing_footer_wide.
+
+(* inhabited by a zone the one-year condition excludes: +02:00 without daylight time up to
+   2023-12-31T22:00:00Z, then CET with the footer CET-1CEST,M3.5.0,M10.5.0/3; the last table window
+   (the hour read twice) ends on the year boundary.  The same readings are regression cases of the
+   correspondence run (corpus/C05/straddle.case): the real code agrees *)
+Theorem C05_composite_wide_example :
+  table_zone strad_zone strad_ps strad_eet /\ extra_rule strad_zone = Some (Alternate exc_rule) /\
+  increasing (offs strad_ps) = true /\ spacing_table (offs strad_ps) (ut_offset strad_eet) = true /\
+  footer_continues strad_cz = false /\ footer_continues_wide strad_cz = true /\
+  footer_year_lo strad_cz = 2023 /\ footer_year_hi strad_cz = 2024 /\ footer_hi strad_cz = 1704067200 /\
+  rule_year_hyps (conv_rule exc_rule) 2023 /\ rule_year_hyps (conv_rule exc_rule) 2024 /\
+  J.spacing_rule_table strad_cz (conv_rule exc_rule) = true /\
+  excepted_wall strad_cz 1704065400 = false /\ excepted_wall strad_cz 1704069000 = false /\
+  rule_reading_hyps exc_rule 1704069000 /\
+  find_local_time_type_from_local strad_zone 2023 1704065400 = Val (Ok (MAmbiguous strad_eet ex_cet)) /\
+  instants_of_wall strad_cz 1704065400 = [1704058200; 1704061800] /\
+  find_local_time_type_from_local strad_zone 2024 1704069000 = Val (Ok (MSingle ex_cet)) /\
+  instants_of_wall strad_cz 1704069000 = [1704065400].
+Proof. exact strad_facts. Qed.
+Print Assumptions C05_composite_wide_example.
 
 (* a table followed by a FIXED footer (zones that abolished daylight time, "JST-9"): when the footer's
    offset is the offset after the last transition the same classification holds, for every reading
